@@ -240,7 +240,11 @@ class Tensor:
                         index = cffi_indexes[i_level][1][next_position]
                         yield from recurse(i_level + 1, (*prefix, index), next_position)
             else:
-                coordinate = tuple(prefix[mode_ordering[i]] for i in range(order))
+                # mode_ordering[i_level] is the dimension stored at level i_level
+                coordinate_list = [0] * order
+                for i_level_prefix, i_dimension in enumerate(mode_ordering):
+                    coordinate_list[i_dimension] = prefix[i_level_prefix]
+                coordinate = tuple(coordinate_list)
                 yield coordinate, cffi_values[position]
 
         yield from recurse(0, (), 0)
